@@ -295,7 +295,57 @@ class Gen:
                 b = b[: tail + 6]           # string whose length points just past the end
             self.dump("modules_strings", b)
 
-    # ------------------------------------------------------------- handle data
+    # ------------------------------------------------------------- handle data: cross product of hostile features
+    CHAIN_SHAPES = ["open1", "open2", "open4", "self", "cycle2", "cycle5", "rho", "off_end", "into_header", "into_stream", "straddle_eof"]
+    TYPE_PATTERNS = ["known", "unknown", "unknown_first", "unknown_last", "alternate"]
+
+    @staticmethod
+    def chain(d, shape, pattern, unknown=0x7777):
+        """Lay out one object-info chain; returns the head rva. Record i gets a known or unknown type by `pattern`."""
+        n = {"open1": 1, "open2": 2, "open4": 4, "self": 1, "cycle2": 2, "cycle5": 5, "rho": 5, "off_end": 2,
+             "into_header": 2, "into_stream": 2, "straddle_eof": 2}[shape]
+
+        def ty(i):
+            unk = {"known": False, "unknown": True, "unknown_first": i == 0, "unknown_last": i == n - 1, "alternate": i % 2 == 0}[pattern]
+            return unknown if unk else 1 + i % 9
+        a = len(d.buf) + (-len(d.buf)) % 4
+        for i in range(n):
+            nxt = a + 12 * (i + 1)
+            if i == n - 1:
+                nxt = {"open1": 0, "open2": 0, "open4": 0, "self": a, "cycle2": a, "cycle5": a, "rho": a + 24, "off_end": 0x7ffffff0,
+                       "into_header": 4, "into_stream": 32, "straddle_eof": -1}[shape]
+            if nxt == -1:
+                nxt = a + 12 * n          # the next record starts where the file ends (caller appends a partial record)
+            d.add(d.objinfo(nxt, ty(i)))
+        return a
+
+    def handle_product(self):
+        for be in (False, True):
+            for shape in self.CHAIN_SHAPES:
+                for pattern in self.TYPE_PATTERNS:
+                    for unknown in (10, 0x7777, 0xffffffff):
+                        if pattern == "known" and unknown != 10:
+                            continue
+                        for dsz, ndesc in ((40, 1), (40, 2), (32, 1)):
+                            d = Dump(be, ndir=2)
+                            ty = d.utf16("Event")
+                            d.stream(ST["system_info"], d.sysinfo(9))
+                            body = b""
+                            heads = []
+                            # reserve the stream first so that a straddling record can be the last thing in the file
+                            stream_len = 16 + dsz * ndesc
+                            srva = d.add(bytes(stream_len))
+                            d.dir.append((ST["handle"], stream_len, srva))
+                            for i in range(ndesc):
+                                heads.append(self.chain(d, shape, pattern, unknown))
+                            if shape == "straddle_eof":
+                                d.add(d.objinfo(0, 1)[:7])
+                            for i in range(ndesc):
+                                body += d.handle(4 * i, ty, 0, heads[i] if dsz == 40 else None)
+                            d.buf[srva:srva + stream_len] = d.u32(16, dsz, ndesc, 0) + body
+                            self.dump("handle_product", d.finish())
+
+    # ------------------------------------------------------------- handle data (random combinations)
     def handles(self, nrand):
         rng = self.rng
         for _ in range(nrand):
@@ -576,7 +626,8 @@ class C01(PropBase):
         g.directory()
         g.lists(150 if q else 3000)
         g.modules(700 if q else 8000)
-        g.handles(1500 if q else 20000)
+        g.handle_product()
+        g.handles(1000 if q else 20000)
         g.exceptions(400 if q else 6000)
         g.memory64(500 if q else 6000)
         g.exercised(500 if q else 6000)
